@@ -135,18 +135,18 @@ where
     {
         let observation_axis = Axis(1);
         let n_observations = A::from_usize(self.len_of(observation_axis)).unwrap();
-        let dof = if ddof >= n_observations {
-            panic!(
-                "`ddof` needs to be strictly smaller than the \
-                 number of observations provided for each \
-                 random variable!"
-            )
-        } else {
-            n_observations - ddof
-        };
         let mean = self.mean_axis(observation_axis);
         match mean {
             Some(mean) => {
+                let dof = if ddof >= n_observations {
+                    panic!(
+                        "`ddof` needs to be strictly smaller than the \
+                         number of observations provided for each \
+                         random variable!"
+                    )
+                } else {
+                    n_observations - ddof
+                };
                 let denoised = self - &mean.insert_axis(observation_axis);
                 let covariance = denoised.dot(&denoised.t());
                 Ok(covariance.mapv_into(|x| x / dof))
